@@ -73,21 +73,23 @@ Definition set_blocked (b : blocking) (c : Z) (st : bstate) : blocking := with_b
 Definition is_blocked (b : blocking) (c : Z) : bool :=
   match zlookup c (b_blk b) with Some _ => true | None => false end.
 
-(** ---- BlockingRegistry ---- *)
+(** ---- BlockingRegistry ----
+    HashMap<key, VecDeque<BlockedClient>> + the HashSet of keys that have an entry.  The code
+    removes an entry (from both) as soon as its queue is empty, so "has an entry" and "queue
+    not empty" coincide; the model tests the queue, keeps no invariant on entries and may
+    leave an entry with an empty queue behind (the dump skips those). *)
 Fixpoint reg_get (r : registry) (k : regkey) : list waiter :=
   match r with
   | [] => []
   | (k', q) :: t => if rk_eqb k k' then q else reg_get t k
   end.
-(** replace the queue of a key (an empty queue removes the entry: blocked_on_key and
-    blocked_keys are kept in step by every function of the registry) *)
-Fixpoint reg_put (r : registry) (k : regkey) (q : list waiter) : registry :=
+Fixpoint reg_remove (r : registry) (k : regkey) : registry :=
   match r with
-  | [] => match q with [] => [] | _ => [(k, q)] end
-  | (k', q') :: t =>
-      if rk_eqb k k' then (match q with [] => t | _ => (k, q) :: t end)
-      else (k', q') :: reg_put t k q
+  | [] => []
+  | (k', q) :: t => if rk_eqb k k' then reg_remove t k else (k', q) :: reg_remove t k
   end.
+(** replace the queue of a key *)
+Definition reg_put (r : registry) (k : regkey) (q : list waiter) : registry := (k, q) :: reg_remove r k.
 
 (** register_blocked_client: push_back on every key, in argument order (a repeated key
     registers twice) *)
@@ -95,29 +97,13 @@ Definition register (r : registry) (db c : Z) (keys : list bytes) (left : bool) 
   fold_left (fun r k => reg_put r (db, k) (reg_get r (db, k) ++ [{| w_conn := c; w_dl := dl; w_left := left |}]))
             keys r.
 
-(** unregister_client of one database: retain the other connections, drop empty entries *)
+(** unregister_client of one database: retain the other connections *)
 Definition not_conn (c : Z) (w : waiter) : bool := negb (w_conn w =? c).
-Fixpoint unregister (r : registry) (db c : Z) : registry :=
-  match r with
-  | [] => []
-  | (k, q) :: t =>
-      if fst k =? db then
-        match filter (not_conn c) q with
-        | [] => unregister t db c
-        | q' => (k, q') :: unregister t db c
-        end
-      else (k, q) :: unregister t db c
-  end.
+Definition unregister (r : registry) (db c : Z) : registry :=
+  map (fun kq => if fst (fst kq) =? db then (fst kq, filter (not_conn c) (snd kq)) else kq) r.
 (** cleanup_connections: every database *)
-Fixpoint unregister_all (r : registry) (c : Z) : registry :=
-  match r with
-  | [] => []
-  | (k, q) :: t =>
-      match filter (not_conn c) q with
-      | [] => unregister_all t c
-      | q' => (k, q') :: unregister_all t c
-      end
-  end.
+Definition unregister_all (r : registry) (c : Z) : registry :=
+  map (fun kq => (fst kq, filter (not_conn c) (snd kq))) r.
 
 (** notify_key_ready: pop the first waiter of the key, drop its registrations on the other
     keys of that database (repair 0bf391b), enqueue one wake-up *)
@@ -331,17 +317,12 @@ Definition process_wakeups (s : server) (b : blocking) : server * blocking :=
 Definition expired_w (now : Z) (w : waiter) : bool :=
   match w_dl w with Some d => d <=? now | None => false end.
 Definition live_w (now : Z) (w : waiter) : bool := negb (expired_w now w).
-(** get_expired_clients: one id per removed registration *)
-Fixpoint expire_reg (now : Z) (r : registry) : list Z * registry :=
-  match r with
-  | [] => ([], [])
-  | (k, q) :: t =>
-      match expire_reg now t with
-      | (ex, t') =>
-          (map w_conn (rev (filter (expired_w now) q)) ++ ex,
-           match filter (live_w now) q with [] => t' | q' => (k, q') :: t' end)
-      end
-  end.
+(** get_expired_clients: one id per removed registration (per key the code collects them
+    back to front) *)
+Definition expired_ids (now : Z) (r : registry) : list Z :=
+  flat_map (fun kq => map w_conn (rev (filter (expired_w now) (snd kq)))) r.
+Definition expire_reg (now : Z) (r : registry) : list Z * registry :=
+  (expired_ids now r, map (fun kq => (fst kq, filter (live_w now) (snd kq))) r).
 Definition timeout_conn (b : blocking) (c : Z) : blocking :=
   match zlookup c (b_blk b) with
   | Some _ => unblock (emit b c FNullArray) c
@@ -396,4 +377,4 @@ Definition dump_blocking (b : blocking) : list tok :=
   TI (len (b_wake b)) ::
   flat_map (fun kq => match kq with
                       | ((db, k), q) => TI db :: TB k :: TI (len q) :: map (fun w => TI (w_conn w)) q
-                      end) (rk_sort (b_reg b)).
+                      end) (rk_sort (filter (fun kq => match snd kq with [] => false | _ => true end) (b_reg b))).
